@@ -20,13 +20,23 @@ func init() {
 			if err := runRuntime(r, id); err != nil {
 				return err
 			}
+			if id == "C11" || id == "C13" {
+				if err := runRuntimeNoast(r); err != nil { // error positions and memory safety of a -noast parser's runtime
+					return err
+				}
+			}
 			return runClosureProperty(r, id, [][]string{{}}, false)
 		}})
 	}
 	register(&propertyDef{ID: "C09", Level: "other", Run: runC09})
 	register(&propertyDef{ID: "C14", Level: "other", Run: runC14})
 	register(&propertyDef{ID: "C04", Level: "proof", Run: func(r *Run) error { return runRuntime(r, "C04") }})
-	register(&propertyDef{ID: "C12", Level: "proof", Run: func(r *Run) error { return runRuntime(r, "C12") }})
+	register(&propertyDef{ID: "C12", Level: "proof", Run: func(r *Run) error {
+		if err := runRuntime(r, "C12"); err != nil {
+			return err
+		}
+		return runRuntimeNoast(r) // Reset of a -noast parser
+	}})
 	register(&propertyDef{ID: "C05", Level: "proof", Run: func(r *Run) error { return runRuntime(r, "C05") }})
 	register(&propertyDef{ID: "C18", Level: "proof", Run: func(r *Run) error {
 		u, keys, err := loadMainUnit()
@@ -61,12 +71,21 @@ func init() {
 	// C10: the tree builder as a stack machine, the escape table and the stack discipline of peg.peg (builder.go)
 	register(&propertyDef{ID: "C10", Level: "proof", Run: runC10})
 	register(&propertyDef{ID: "C02", Level: "translation_validation", Run: func(r *Run) error {
+		if err := runRuntime(r, "C02"); err != nil {
+			return err
+		}
 		return runClosureProperty(r, "C02", [][]string{{"-inline"}, {"-switch"}, {"-inline", "-switch"}}, false)
 	}})
 	register(&propertyDef{ID: "C07", Level: "translation_validation", Run: func(r *Run) error {
+		if err := runRuntimeNoast(r); err != nil {
+			return err
+		}
 		return runClosureProperty(r, "C07", [][]string{{"-noast"}, {"-noast", "-inline"}, {"-noast", "-switch"}, {"-noast", "-inline", "-switch"}}, false)
 	}})
 	register(&propertyDef{ID: "C17", Level: "translation_validation", Run: func(r *Run) error {
+		if err := runRuntime(r, "C17"); err != nil {
+			return err
+		}
 		return runClosureProperty(r, "C17", [][]string{{}, {"-inline"}, {"-switch"}, {"-inline", "-switch"}}, true)
 	}})
 }
@@ -149,7 +168,7 @@ func runClosureProperty(r *Run, id string, optSets [][]string, corpusOnly bool) 
 	if corpusOnly {
 		var keep []programSpec
 		for _, p := range progs {
-			if !strings.Contains(p.Name, "schema") && !strings.HasPrefix(p.Name, "hz-") {
+			if strings.HasPrefix(p.Grammar, repoDir+"/") { // C17 is about the shipped grammars only
 				keep = append(keep, p)
 			}
 		}
@@ -229,16 +248,23 @@ func runClosureProperty(r *Run, id string, optSets [][]string, corpusOnly bool) 
 }
 
 // runtimeFuncs: which functions of the parser runtime (template) carry which property.
+// runtimeCore: the template functions every parser property rests on (a parse is: reset, parse, the closures' calls of add /
+// matchDot / memoize / memoizedResult, tokens.Add / Trim). Each parser property verifies them besides its own functions: a
+// change in one of them that breaks its contract breaks every property that is stated over a parse.
+var runtimeCore = []string{"tokens.Add", "tokens.Trim", "Init.add", "Init.matchDot", "Init.reset", "Init.parse", "Init.memoize", "Init.memoizedResult"}
+
 var runtimeFuncs = map[string][]string{
-	"C01": {"Init.matchDot", "Init.parse"},
-	"C03": {"tokens.Add", "tokens.Trim", "Init.add", "Init.parse", "Init.memoizedResult"},
-	"C04": {"tokens.Tokens", "$T.Execute"},
-	"C05": {"tokens.Tokens", "tokens.AST", "print.printFunc", "node.print", "node.Print", "node.PrettyPrint", "tokens.PrintSyntaxTree", "tokens.WriteSyntaxTree",
-		"tokens.PrettyPrintSyntaxTree", "$T.PrintSyntaxTree", "$T.WriteSyntaxTree", "$T.SprintSyntaxTree"},
-	"C06": {"Init.memoize", "Init.memoizedResult", "Init.add", "Init.reset"},
-	"C11": {"Init.add", "Init.parse", "translatePositions", "parseError.Error"},
-	"C12": {"Init.reset", "Init.parse"},
-	"C13": {"tokens.Tokens", "$T.Execute", "tokens.Add", "tokens.Trim", "Init.add", "Init.matchDot", "Init.reset", "Init.parse", "translatePositions", "parseError.Error", "Init.memoize", "Init.memoizedResult"},
+	"C01": runtimeCore,
+	"C02": runtimeCore,
+	"C17": runtimeCore,
+	"C03": runtimeCore,
+	"C04": append([]string{"tokens.Tokens", "$T.Execute"}, runtimeCore...),
+	"C05": append([]string{"tokens.Tokens", "tokens.AST", "print.printFunc", "node.print", "node.Print", "node.PrettyPrint", "tokens.PrintSyntaxTree", "tokens.WriteSyntaxTree",
+		"tokens.PrettyPrintSyntaxTree", "$T.PrintSyntaxTree", "$T.WriteSyntaxTree", "$T.SprintSyntaxTree"}, runtimeCore...),
+	"C06": runtimeCore,
+	"C11": append([]string{"translatePositions", "parseError.Error"}, runtimeCore...),
+	"C12": runtimeCore,
+	"C13": append([]string{"tokens.Tokens", "$T.Execute", "translatePositions", "parseError.Error"}, runtimeCore...),
 }
 
 // runRuntime verifies the bodies of the runtime functions that carry the property, on the carrier
@@ -262,6 +288,19 @@ func runRuntime(r *Run, id string) error {
 		}
 		keys = append(keys, k)
 	}
+	r.verifyFuncs(u, keys)
+	return nil
+}
+
+// runRuntimeNoast verifies the template functions of a -noast parser on the carrier grammar generated with -noast.
+func runRuntimeNoast(r *Run) error {
+	u, keys, err := loadRuntimeNoastUnit()
+	if err != nil {
+		r.Obls = append(r.Obls, &Obligation{Name: "runtime-noast#unit.welltyped", Kind: "unit", Unit: "runtime-noast", Goal: "false", PC: "true",
+			Detail: "the -noast carrier parser could not be generated or does not type-check: " + trunc(err.Error(), 1500), Result: SolverResult{Verdict: VUnknown, Output: trunc(err.Error(), 3000)}})
+		return nil
+	}
+	r.Units = append(r.Units, u)
 	r.verifyFuncs(u, keys)
 	return nil
 }
